@@ -14,4 +14,4 @@ for id in "$@"; do
   ./check "$id" 2>&1 | grep -E "VIOLATION|KNOWN-FINDING|done:|DISAGREE|FAILED" | cut -c1-400
 done
 cp -p "$saved"/*.json evidence/; rm -rf "$saved"
-git -C /repo checkout -- . ; git -C /repo reset -q; git -C /repo status --short
+git -C /repo reset -q --hard HEAD; git -C /repo status --short
